@@ -229,6 +229,21 @@ func child() int {
 	tag := "x" + sc.ID
 	label := func(s int) string { return fmt.Sprintf("s%d", s) }
 
+	// newest timestamp the database handed to the tail so far (boundary probes are placed relative to it)
+	var newestDelivered int64
+	var ndMu sync.Mutex
+	tsOf := map[int]int64{}
+	streamOf := map[int]int{}
+	noteAnswered := func(ids []int) {
+		ndMu.Lock()
+		for _, id := range ids {
+			if tsOf[id] > newestDelivered {
+				newestDelivered = tsOf[id]
+			}
+		}
+		ndMu.Unlock()
+	}
+
 	// ---- the database: one lock makes "a push is stored" and "a query is answered" atomic events
 	var dbmu sync.Mutex
 	inner := w.SQL.Handler
@@ -283,6 +298,9 @@ func child() int {
 		r.nq++
 		n := r.nq
 		r.mu.Unlock()
+		if sc.FaultAt != n || sc.Fault == "version" || sc.Fault == "none" {
+			noteAnswered(ev.IDs)
+		}
 		var ferr error
 		if sc.FaultAt == n {
 			switch sc.Fault {
@@ -346,8 +364,6 @@ func child() int {
 
 	// concrete timestamps
 	var start time.Time
-	var newestDelivered int64
-	var ndMu sync.Mutex
 	realTs := func(l Line) int64 {
 		if l.Adj != 0 {
 			ndMu.Lock()
@@ -362,8 +378,6 @@ func child() int {
 		}
 		return start.Add(time.Duration(l.Ts-2)*time.Second + 500*time.Millisecond).UnixNano()
 	}
-	tsOf := map[int]int64{}
-	streamOf := map[int]int{}
 	store := func(ls []Line) {
 		by := map[int][]Line{}
 		for _, l := range ls {
@@ -406,6 +420,8 @@ func child() int {
 	var frames int64
 	eof := make(chan struct{})
 	badFrame := make(chan struct{}) // closed at the first message that is not a well-formed frame
+	var rdMu sync.Mutex             // orders "a message was read" against "the client dropped the connection"
+	droppedFlag := false
 	gone := time.Time{}
 	switch sc.Req {
 	case "noupgrade":
@@ -458,8 +474,14 @@ func child() int {
 						return
 					}
 					atomic.AddInt64(&frames, 1)
+					rdMu.Lock()
+					if droppedFlag { // read while the connection was being dropped: lost with the connection
+						rdMu.Unlock()
+						continue
+					}
 					if badSeen >= 3 { // a handler spinning on the closed channel floods the client: from here on count, do not record
 						flood++
+						rdMu.Unlock()
 						continue
 					}
 					ndMu.Lock()
@@ -470,16 +492,9 @@ func child() int {
 						if badSeen == 1 {
 							close(badFrame)
 						}
-					} else {
-						ndMu.Lock()
-						for _, id := range ev.IDs {
-							if tsOf[id] > newestDelivered {
-								newestDelivered = tsOf[id]
-							}
-						}
-						ndMu.Unlock()
 					}
 					r.add(ev)
+					rdMu.Unlock()
 				}
 			}()
 		}
@@ -547,7 +562,10 @@ func child() int {
 			}
 		case "drop", "reset":
 			if con != nil && gone.IsZero() {
+				rdMu.Lock()
+				droppedFlag = true
 				r.add(Event{Ev: "ClientDrop"})
+				rdMu.Unlock()
 				if tc, ok := con.UnderlyingConn().(*net.TCPConn); ok && st.Op == "reset" {
 					tc.SetLinger(0)
 				}
